@@ -10,19 +10,26 @@ connected proxy eventually receives ..."
 `pushFn` = `Push`/`AdsPushAll`/`StartPush` over all registered connections, push queue, sender, stream
 loops) can reach - any interleaving of producers, timers, push completions, sender steps, clients
 closing at any moment, server stop - and for every connection `c` that is registered, every fact
-(changed key, forced flag) of every accepted notification is in exactly one of these places:
+(changed key, forced flag) of every notification accepted **since the last `mark`** is in one of
+these places:
 
   still in the push channel · pending in the debounce loop · in a `pushFn` that has not reached
   `StartPush` yet · waiting for `c` in the push queue · in `c`'s parked push event ·
-  **already received by `c`'s stream loop as `Event.pushRequest`** ·
-  or given up by an exit that is only taken when `c`'s stream is closed or the server stops.
+  **received by `c`'s stream loop as `Event.pushRequest` since that `mark`** ·
+  or given up (since the mark) by an exit that is only taken when `c`'s stream is closed or the
+  server stops.
+
+`mark` is a ghost event that may occur anywhere in a history (it empties the logs and nothing else),
+so this is a statement about occurrences, not about key sets accumulated over the whole history: a
+notification that repeats keys delivered long ago must be delivered again after it was accepted.
 
 `pipeline_delivered_at_rest`: hence, once the first five are empty and `c` is alive, `c` has
-received it.  (That they do become empty is the liveness part: `debounce_eventually`,
-`fifo_fair`, `loop_can_proceed`, `flight_exit_releases`, under scheduler fairness.)
+received it (since the mark).  (That they do become empty is the liveness part:
+`debounce_eventually`, `fifo_fair`, `loop_can_proceed`, `flight_exit_releases`, under fairness.)
 
-Connections registering later are not part of this theorem (the set is fixed from the start;
-`unregister` is allowed); `addCon` happening before `MarkInitialized` is covered by the tie.
+`register` (a connection appearing later, e.g. a reconnect) is **not** covered: the set of
+connections is fixed from the start, `unregister` is allowed.  `addCon` happening before
+`MarkInitialized` is covered by the tie (stream `server`) only.
 -/
 namespace IstioModel.C02
 
@@ -94,20 +101,25 @@ theorem mem_newPushes (o : DOpts) (s s' : DB) (e : Ev) (h : stepD o s e = some s
 
 /-! ## The invariant -/
 
+/-- Where the facts enqueued for `c` can be. -/
+def Held (p : Pipe) (c : Conn) (x : Fact) : Prop :=
+  x ∈ logOf p.seenLog c ∨ x ∈ logOf p.dropLog c ∨ x ∈ mail p.snd.q c ∨ x ∈ flightFacts p.snd c
+
 structure PInv (p : Pipe) : Prop where
   sI : InvS p.snd
   dI : InvD p.opts p.db
   /-- parked push events point to existing requests -/
   fl : ∀ f, f ∈ p.snd.parked → okRef p.snd.q.heap.reqs.length f.2 = true
-  /-- accepted = still in the channel ∪ taken by the debounce loop -/
-  acc : ∀ x, x ∈ factsL p.accepted ↔ (x ∈ factsL p.chan ∨ x ∈ factsL p.db.recvd)
-  /-- everything handed to `pushFn` is about to be, or has been, enqueued for every registered connection -/
-  bro : p.snd.q.down = false → ∀ c, c ∈ p.conns → ∀ x,
-    (x ∈ factsL p.db.pushed ∨ x ∈ factsL p.db.edsPushed) → (x ∈ factsL p.toStart ∨ x ∈ p.enqd c)
-  /-- per connection: enqueued = received by its stream loop ∪ given up ∪ waiting in the queue ∪ in its parked event -/
-  sl : ∀ c x, x ∈ p.enqd c ↔ (x ∈ p.seen c ∨ x ∈ p.dropped c ∨ x ∈ mail p.snd.q c ∨ x ∈ flightFacts p.snd c)
+  /-- accepted (since the mark) ⊆ still in the channel ∪ taken by the debounce loop (since the mark) -/
+  acc : ∀ x, x ∈ factsL p.accepted → (x ∈ factsL p.chan ∨ x ∈ p.recvS)
+  /-- taken by the loop ⊆ handed to `pushFn` ∪ pending -/
+  deb : ∀ x, x ∈ p.recvS → (x ∈ p.pushS ∨ x ∈ factsO p.db.req)
+  /-- handed to `pushFn` ⊆ not yet at `StartPush` ∪ enqueued for every registered connection -/
+  bro : p.snd.q.down = false → ∀ c, c ∈ p.conns → ∀ x, x ∈ p.pushS → (x ∈ factsL p.toStart ∨ x ∈ logOf p.enqLog c)
+  /-- per connection: enqueued ⊆ received by its stream loop ∪ given up ∪ waiting in the queue ∪ in its parked event -/
+  sl : ∀ c x, x ∈ logOf p.enqLog c → Held p c x
   /-- push events are given up only for a closed stream or a stopping server -/
-  dr : ∀ c, p.dropped c ≠ [] → (p.snd.closed c = true ∨ p.snd.stopped = true)
+  dr : ∀ c, logOf p.dropLog c ≠ [] → (p.snd.closed c = true ∨ p.snd.stopped = true)
 
 /-- Histories of the theorem: no connection registers later (see the header). -/
 def PEv.ok : PEv → Prop
@@ -126,18 +138,67 @@ theorem pinv_snd_neutral (p : Pipe) (s' : Sender) (hi : PInv p) (hs : InvS s')
     PInv { p with snd := s' } := by
   have hmail : ∀ c, mail s'.q c = mail p.snd.q c := by
     intro c; simp only [mail, pendingOf, procOf, hq.1, hq.2.1, hq.2.2]
-  refine { sI := hs, dI := hi.dI, fl := ?_, acc := hi.acc, bro := fun hd => hi.bro (hdown hd), sl := ?_, dr := ?_ }
+  refine { sI := hs, dI := hi.dI, fl := ?_, acc := hi.acc, deb := hi.deb, bro := fun hd => hi.bro (hdown hd), sl := ?_, dr := ?_ }
   · intro f hf; rw [hp] at hf; rw [hq.2.2]; exact hi.fl f hf
-  · intro c x
-    rw [hi.sl c x, hmail c, flightFacts_of_parked_heap p.snd s' c hp hq.2.2]
+  · intro c x hx
+    have := hi.sl c x hx
+    simp only [Held, hmail c, flightFacts_of_parked_heap p.snd s' c hp hq.2.2] at this ⊢
+    exact this
   · intro c hc
     rcases hi.dr c hc with h | h
     · exact Or.inl (hcl c h)
     · exact Or.inr (hst h)
 
+theorem parked_nodup (s : Sender) (hi : InvS s) : (s.parked.map (·.1)).Nodup := by
+  have := hi.nodup
+  simp only [inflight, List.map_append] at this
+  exact (List.nodup_append.mp this).1
+
+/-- A closed-stream / server-stop exit of `c`'s parked push event. -/
+theorem pinv_exit (p : Pipe) (hi : PInv p) (c : Conn) (f : Flight) (rest : List Flight)
+    (htk : takeFlight c p.snd.parked = some (f, rest))
+    (hS : InvS (doneFunc { p.snd with parked := rest } c))
+    (hwhy : p.snd.closed c = true ∨ p.snd.stopped = true) :
+    PInv { p with snd := doneFunc { p.snd with parked := rest } c
+                  dropLog := p.dropLog ++ [(c, flightPush p.snd c, flightFacts p.snd c)] } := by
+  have hnd := parked_nodup p.snd hi.sI
+  have hperm := (takeFlight_spec c _ f rest htk).2
+  refine { sI := hS, dI := hi.dI, fl := ?_, acc := hi.acc, deb := hi.deb, bro := ?_, sl := ?_, dr := ?_ }
+  · intro g hg; simp only [doneFunc, markDone_heap]
+    exact hi.fl g (hperm.mem_iff.mpr (List.mem_cons_of_mem _ hg))
+  · intro hd; simp only [doneFunc, markDone_down] at hd; exact hi.bro hd
+  · intro c' x hx
+    have hold := hi.sl c' x hx
+    simp only [Held, flightFacts_L, mem_logOf_snoc] at hold ⊢
+    simp only [doneFunc, markDone_heap, mail_markDone p.snd.q hi.sI.qinv c c' x]
+    by_cases hcc : c' = c
+    · subst hcc
+      have hf1 : flightFactsL p.snd.q.heap rest c' = [] := by
+        simp only [flightFactsL, flightRef_take_self _ _ _ _ htk hnd]
+      simp only [hf1, List.not_mem_nil, or_false, true_and]
+      rcases hold with h | h | h | h <;> simp [h]
+    · have hf1 : flightFactsL p.snd.q.heap rest c' = flightFactsL p.snd.q.heap p.snd.parked c' := by
+        simp only [flightFactsL, flightRef_take_other _ _ _ _ _ htk hcc]
+      simp only [hcc, false_and, or_false, hf1]
+      exact hold
+  · intro c' hc'
+    by_cases hcc : c' = c
+    · subst hcc; simpa [doneFunc] using hwhy
+    · have : logOf (p.dropLog ++ [(c, flightPush p.snd c, flightFacts p.snd c)]) c' = logOf p.dropLog c' := by
+        unfold logOf
+        have hne : ¬ c = c' := fun e => hcc e.symm
+        simp [List.filter_append, hne]
+      rw [this] at hc'
+      simpa [doneFunc] using hi.dr c' hc'
+
 theorem pinv_step (p p' : Pipe) (e : PEv) (hi : PInv p) (hok : e.ok) (h : stepP p e = some p') : PInv p' := by
   cases e with
   | register c => exact absurd hok id
+  | mark =>
+    simp only [stepP, Option.some.injEq] at h; subst h
+    exact { sI := hi.sI, dI := hi.dI, fl := hi.fl, acc := by intro x hx; simp [factsL] at hx,
+            deb := by intro x hx; simp at hx, bro := by intro _ c _ x hx; simp at hx,
+            sl := by intro c x hx; simp [logOf_nil] at hx, dr := by intro c hc; simp [logOf_nil] at hc }
   | unregister c =>
     simp only [stepP, Option.some.injEq] at h; subst h
     exact { hi with bro := fun hd c' hc' => hi.bro hd c' (List.mem_filter.mp hc').1 }
@@ -146,11 +207,13 @@ theorem pinv_step (p p' : Pipe) (e : PEv) (hi : PInv p) (hok : e.ok) (h : stepP 
     split at h
     · simp only [Option.some.injEq] at h; subst h
       refine { hi with acc := ?_ }
-      intro x
-      simp only [factsL_append, List.mem_append, hi.acc x]
-      constructor
-      · rintro ((h | h) | h) <;> simp [h]
-      · rintro ((h | h) | h) <;> simp [h]
+      intro x hx
+      simp only [factsL_append, List.mem_append] at hx ⊢
+      rcases hx with hx | hx
+      · rcases hi.acc x hx with h | h
+        · exact Or.inl (Or.inl h)
+        · exact Or.inr h
+      · exact Or.inl (Or.inr hx)
     · cases h
   | recv =>
     simp only [stepP] at h
@@ -162,21 +225,33 @@ theorem pinv_step (p p' : Pipe) (e : PEv) (hi : PInv p) (hok : e.ok) (h : stepP 
       | none => simp [hs] at h
       | some db' =>
         simp only [hs, Option.some.injEq] at h; subst h
-        have hrec : db'.recvd = p.db.recvd ++ [fixReason v] := by
-          simp only [stepD, Option.some.injEq] at hs; subst hs
-          unfold onRecv; simp only []; split <;> rfl
-        refine { sI := hi.sI, dI := invD_step _ _ _ _ hi.dI hs, fl := hi.fl, acc := ?_, bro := ?_, sl := hi.sl, dr := hi.dr }
-        · intro x
-          rw [hi.acc x, hc, hrec]
-          simp only [factsL_append, factsL_single, factsV_fixReason, List.mem_append]
-          have : factsL (v :: rest) = factsV v ++ factsL rest := by simp [factsL]
-          rw [this, List.mem_append]
-          constructor
-          · rintro ((h | h) | h) <;> simp [h]
-          · rintro (h | h | h) <;> simp [h]
+        have hflow := fun x => stepD_req_flow p.opts p.db db' (.recv v) hs x
+        refine { sI := hi.sI, dI := invD_step _ _ _ _ hi.dI hs, fl := hi.fl, acc := ?_, deb := ?_, bro := ?_, sl := hi.sl, dr := hi.dr }
+        · intro x hx
+          rcases hi.acc x hx with h | h
+          · rw [hc] at h
+            have : factsL (v :: rest) = factsV v ++ factsL rest := by simp [factsL]
+            rw [this, List.mem_append] at h
+            rcases h with h | h
+            · exact Or.inr (List.mem_append.mpr (Or.inr h))
+            · exact Or.inl h
+          · exact Or.inr (List.mem_append.mpr (Or.inl h))
+        · intro x hx
+          simp only [List.mem_append] at hx ⊢
+          have hL : ∀ l : List View, l.flatMap factsV = factsL l := fun _ => rfl
+          rw [hL]
+          rcases hx with hx | hx
+          · rcases hi.deb x hx with h | h
+            · exact Or.inl (Or.inl h)
+            · rcases (hflow x).1 h with h' | h'
+              · exact Or.inr h'
+              · exact Or.inl (Or.inr h')
+          · rcases (hflow x).2 v rfl hx with h' | h'
+            · exact Or.inr h'
+            · exact Or.inl (Or.inr h')
         · intro hd c hcm x hx
-          rw [mem_newPushes _ _ _ _ hs] at hx
-          simp only [factsL_append, List.mem_append]
+          have hL : ∀ l : List View, l.flatMap factsV = factsL l := fun _ => rfl
+          simp only [List.mem_append, hL, factsL_append] at hx ⊢
           rcases hx with hx | hx
           · rcases hi.bro hd c hcm x hx with h | h
             · exact Or.inl (Or.inl h)
@@ -186,56 +261,23 @@ theorem pinv_step (p p' : Pipe) (e : PEv) (hi : PInv p) (hok : e.ok) (h : stepP 
     simp only [stepP] at h
     split at h
     · cases h
-    · cases hs : stepD p.opts p.db e with
+    · rename_i hne
+      cases hs : stepD p.opts p.db e with
       | none => simp [hs] at h
       | some db' =>
         simp only [hs, Option.some.injEq] at h; subst h
-        have hrec : db'.recvd = p.db.recvd := by
-          rename_i hne
-          cases e with
-          | recv r => simp [isRecv] at hne
-          | tick d => simp only [stepD, Option.some.injEq] at hs; subst hs; rfl
-          | timer =>
-            simp only [stepD] at hs
-            cases ht : p.db.timerAt with
-            | none => simp [ht] at hs
-            | some t =>
-              simp only [ht] at hs
-              split at hs
-              · simp only [Option.some.injEq] at hs; subst hs
-                split
-                · unfold pushWorker; split
-                  · cases p.db.req <;> rfl
-                  · rfl
-                · rfl
-              · cases hs
-          | pushReturn =>
-            simp only [stepD] at hs
-            cases hr : p.db.running with
-            | nil => simp [hr] at hs
-            | cons a rest =>
-              simp only [hr] at hs
-              split at hs
-              · cases hs
-              · simp only [Option.some.injEq] at hs; subst hs; rfl
-          | freeRecv =>
-            simp only [stepD] at hs
-            split at hs
-            · simp only [Option.some.injEq] at hs; subst hs
-              unfold pushWorker; split
-              · cases p.db.req <;> rfl
-              · rfl
-            · cases hs
-          | edsReturn =>
-            simp only [stepD] at hs
-            cases hr : p.db.edsRunning with
-            | nil => simp [hr] at hs
-            | cons a rest => simp only [hr, Option.some.injEq] at hs; subst hs; rfl
-        refine { sI := hi.sI, dI := invD_step _ _ _ _ hi.dI hs, fl := hi.fl, acc := ?_, bro := ?_, sl := hi.sl, dr := hi.dr }
-        · intro x; rw [hi.acc x, hrec]
+        have hflow := fun x => stepD_req_flow p.opts p.db db' e hs x
+        have hL : ∀ l : List View, l.flatMap factsV = factsL l := fun _ => rfl
+        refine { sI := hi.sI, dI := invD_step _ _ _ _ hi.dI hs, fl := hi.fl, acc := hi.acc, deb := ?_, bro := ?_, sl := hi.sl, dr := hi.dr }
+        · intro x hx
+          simp only [List.mem_append, hL]
+          rcases hi.deb x hx with h | h
+          · exact Or.inl (Or.inl h)
+          · rcases (hflow x).1 h with h' | h'
+            · exact Or.inr h'
+            · exact Or.inl (Or.inr h')
         · intro hd c hcm x hx
-          rw [mem_newPushes _ _ _ _ hs] at hx
-          simp only [factsL_append, List.mem_append]
+          simp only [List.mem_append, hL, factsL_append] at hx ⊢
           rcases hx with hx | hx
           · rcases hi.bro hd c hcm x hx with h | h
             · exact Or.inl (Or.inl h)
@@ -257,37 +299,34 @@ theorem pinv_step (p p' : Pipe) (e : PEv) (hi : PInv p) (hok : e.ok) (h : stepP 
             simp only [inflight] at h2 ⊢
             rw [this]; exact h2
           nodup := hi.sI.nodup, once := hi.sI.once, nn := e.nn, alive := hi.sI.alive }
-      refine { sI := hs', dI := hi.dI, fl := ?_, acc := hi.acc, bro := ?_, sl := ?_, dr := hi.dr }
+      refine { sI := hs', dI := hi.dI, fl := ?_, acc := hi.acc, deb := hi.deb, bro := ?_, sl := ?_, dr := hi.dr }
       · intro f hf; exact okRef_le e.le (hi.fl f hf)
       · intro hd c hcm x hx
         have hd' : p.snd.q.down = false := by rw [← e.down]; exact hd
-        have hcont : p.conns.contains c = true := by simpa using hcm
-        simp only [hd', Bool.false_or, hcont, Bool.not_true, Bool.false_eq_true, if_false, List.mem_append]
+        simp only [hd', Bool.false_eq_true, if_false, mem_logOf_append_map]
         rcases hi.bro hd' c hcm x hx with h | h
         · rw [ht] at h
           have : factsL (v :: rest) = factsV v ++ factsL rest := by simp [factsL]
           rw [this, List.mem_append] at h
           rcases h with h | h
-          · exact Or.inr (Or.inr h)
+          · exact Or.inr (Or.inr ⟨hcm, h⟩)
           · exact Or.inl h
         · exact Or.inr (Or.inl h)
-      · intro c x
-        simp only [flightFacts_L]
+      · intro c x hx
+        simp only [Held, flightFacts_L]
         rw [flightFactsL_grow _ _ _ c e.le hi.sI.qinv.wf hi.fl, e.mail c x, factsV_prepPush]
-        have hsl := hi.sl c x
-        simp only [flightFacts_L] at hsl
         by_cases hd : p.snd.q.down = true
-        · simp only [hd, Bool.true_or, if_true, hsl, Bool.true_eq_false, false_and, or_false]
+        · simp only [hd, if_true] at hx
+          have hold := hi.sl c x hx
+          simp only [Held, flightFacts_L] at hold
+          rcases hold with h | h | h | h <;> simp [h]
         · have hd' : p.snd.q.down = false := by simpa using hd
-          by_cases hcm : c ∈ p.conns
-          · have hcont : p.conns.contains c = true := by simpa using hcm
-            simp only [hd', Bool.false_or, hcont, Bool.not_true, Bool.false_eq_true, if_false, List.mem_append, hsl, hcm,
-              true_and]
-            constructor
-            · rintro ((h | h | h | h) | h) <;> simp [h]
-            · rintro (h | h | (h | h) | h) <;> simp [h]
-          · have hcont : p.conns.contains c = false := by simpa using hcm
-            simp only [hd', Bool.false_or, hcont, Bool.not_false, if_true, hsl, hcm, false_and, and_false, or_false]
+          simp only [hd', Bool.false_eq_true, if_false, mem_logOf_append_map] at hx
+          rcases hx with hx | ⟨hcm, hx⟩
+          · have hold := hi.sl c x hx
+            simp only [Held, flightFacts_L] at hold
+            rcases hold with h | h | h | h <;> simp [h]
+          · exact Or.inr (Or.inr (Or.inl (Or.inr ⟨hd', hcm, hx⟩)))
   | snd e =>
     simp only [stepP] at h
     split at h
@@ -361,7 +400,7 @@ theorem pinv_step (p p' : Pipe) (e : PEv) (hi : PInv p) (hok : e.ok) (h : stepP 
                 have := (hi.sI.proc c).mpr this; rw [hpn] at this; cases this
               have hheap : (dequeueState p.snd.q).heap = p.snd.q.heap := by simp [dequeueState, hq]
               have hdown : (dequeueState p.snd.q).down = p.snd.q.down := by simp [dequeueState, hq]
-              refine { sI := hS, dI := hi.dI, fl := ?_, acc := hi.acc, bro := ?_, sl := ?_, dr := hi.dr }
+              refine { sI := hS, dI := hi.dI, fl := ?_, acc := hi.acc, deb := hi.deb, bro := ?_, sl := ?_, dr := hi.dr }
               · intro f hf
                 simp only [List.mem_append, List.mem_singleton] at hf
                 rw [hheap]
@@ -371,26 +410,25 @@ theorem pinv_step (p p' : Pipe) (e : PEv) (hi : PInv p) (hok : e.ok) (h : stepP 
                   have := pendingOf_ok p.snd.q hi.sI.qinv c
                   rw [hpo] at this; exact this
               · intro hd; rw [hdown] at hd; exact hi.bro hd
-              · intro c' x
-                have hsl := hi.sl c' x
-                simp only [flightFacts_L] at hsl ⊢
-
-                rw [hheap, hsl]
+              · intro c' x hx
+                have hold := hi.sl c' x hx
+                simp only [Held, flightFacts_L] at hold ⊢
+                rw [hheap]
                 by_cases hcc : c' = c
                 · subst hcc
-                  have hf0 : flightFactsL p.snd.q.heap p.snd.parked c' = [] := by
-                    simp only [flightFactsL, flightRef_none _ _ hcn]
                   have hf1 : flightFactsL p.snd.q.heap (p.snd.parked ++ [(c', some i)]) c' = facts p.snd.q.heap (some i) := by
                     simp only [flightFactsL, flightRef_snoc_self _ _ _ hcn]
-                  rw [hf0, hf1, mail_dequeue p.snd.q hi.sI.qinv c' rest hq x, hpo]
-                  simp only [List.not_mem_nil, or_false]
-                  constructor
-                  · rintro (h | h | h | h) <;> simp [h]
-                  · rintro (h | h | h | h) <;> simp [h]
+                  rw [hf1]
+                  rw [mail_dequeue p.snd.q hi.sI.qinv c' rest hq x, hpo] at hold
+                  have hf0 : flightFactsL p.snd.q.heap p.snd.parked c' = [] := by
+                    simp only [flightFactsL, flightRef_none _ _ hcn]
+                  rw [hf0] at hold
+                  rcases hold with h | h | (h | h) | h <;> simp_all
                 · have hf1 : flightFactsL p.snd.q.heap (p.snd.parked ++ [(c, some i)]) c' =
                       flightFactsL p.snd.q.heap p.snd.parked c' := by
                     simp only [flightFactsL, flightRef_snoc_other _ _ _ _ hcc]
                   rw [hf1, mail_dequeue_other p.snd.q c rest hq c' hcc]
+                  exact hold
           · cases hs
         | deliver c =>
           simp only [hs, Option.some.injEq] at h; subst h
@@ -400,30 +438,23 @@ theorem pinv_step (p p' : Pipe) (e : PEv) (hi : PInv p) (hok : e.ok) (h : stepP 
           | some pr =>
             obtain ⟨f, rest⟩ := pr
             simp only [htk, Option.some.injEq] at hs; subst hs
-            have hnd : (p.snd.parked.map (·.1)).Nodup := by
-              have := hi.sI.nodup
-              simp only [inflight, List.map_append] at this
-              exact (List.nodup_append.mp this).1
+            have hnd := parked_nodup p.snd hi.sI
             have hperm := (takeFlight_spec c _ f rest htk).2
-            refine { sI := hS, dI := hi.dI, fl := ?_, acc := hi.acc, bro := hi.bro, sl := ?_, dr := hi.dr }
+            refine { sI := hS, dI := hi.dI, fl := ?_, acc := hi.acc, deb := hi.deb, bro := hi.bro, sl := ?_, dr := hi.dr }
             · intro g hg; exact hi.fl g (hperm.mem_iff.mpr (List.mem_cons_of_mem _ hg))
-            · intro c' x
-              have hsl := hi.sl c' x
-              simp only [flightFacts_L] at hsl ⊢
-
-              rw [hsl]
+            · intro c' x hx
+              have hold := hi.sl c' x hx
+              simp only [Held, flightFacts_L, mem_logOf_snoc] at hold ⊢
               by_cases hcc : c' = c
               · subst hcc
                 have hf1 : flightFactsL p.snd.q.heap rest c' = [] := by
                   simp only [flightFactsL, flightRef_take_self _ _ _ _ htk hnd]
-                have hf0 : flightFacts p.snd c' = flightFactsL p.snd.q.heap p.snd.parked c' := flightFacts_L _ _
-                simp only [if_true, hf1, hf0, List.mem_append, List.not_mem_nil, or_false]
-                constructor
-                · rintro (h | h | h | h) <;> simp [h]
-                · rintro ((h | h) | h | h) <;> simp [h]
+                simp only [hf1, List.not_mem_nil, or_false, true_and]
+                rcases hold with h | h | h | h <;> simp [h]
               · have hf1 : flightFactsL p.snd.q.heap rest c' = flightFactsL p.snd.q.heap p.snd.parked c' := by
                   simp only [flightFactsL, flightRef_take_other _ _ _ _ _ htk hcc]
-                simp only [hcc, if_false, hf1]
+                simp only [hcc, false_and, or_false, hf1]
+                exact hold
         | pushDone c =>
           simp only [hs, Option.some.injEq] at h; subst h
           simp only [stepS] at hs
@@ -432,14 +463,14 @@ theorem pinv_step (p p' : Pipe) (e : PEv) (hi : PInv p) (hok : e.ok) (h : stepP 
           | some pr =>
             obtain ⟨f, rest⟩ := pr
             simp only [htk, Option.some.injEq] at hs; subst hs
-            refine { sI := hS, dI := hi.dI, fl := ?_, acc := hi.acc, bro := ?_, sl := ?_, dr := hi.dr }
+            refine { sI := hS, dI := hi.dI, fl := ?_, acc := hi.acc, deb := hi.deb, bro := ?_, sl := ?_, dr := hi.dr }
             · intro g hg; simp only [doneFunc, markDone_heap]; exact hi.fl g hg
             · intro hd; simp only [doneFunc, markDone_down] at hd; exact hi.bro hd
-            · intro c' x
-              have hsl := hi.sl c' x
-              simp only [flightFacts_L] at hsl ⊢
+            · intro c' x hx
+              have hold := hi.sl c' x hx
+              simp only [Held, flightFacts_L] at hold ⊢
               simp only [doneFunc, markDone_heap, mail_markDone p.snd.q hi.sI.qinv c c' x]
-              exact hsl
+              exact hold
         | closedExit c =>
           simp only [hs, Option.some.injEq] at h; subst h
           simp only [stepS] at hs
@@ -450,35 +481,7 @@ theorem pinv_step (p p' : Pipe) (e : PEv) (hi : PInv p) (hok : e.ok) (h : stepP 
             | some pr =>
               obtain ⟨f, rest⟩ := pr
               simp only [htk, Option.some.injEq] at hs; subst hs
-              have hnd : (p.snd.parked.map (·.1)).Nodup := by
-                have := hi.sI.nodup
-                simp only [inflight, List.map_append] at this
-                exact (List.nodup_append.mp this).1
-              have hperm := (takeFlight_spec c _ f rest htk).2
-              refine { sI := hS, dI := hi.dI, fl := ?_, acc := hi.acc, bro := ?_, sl := ?_, dr := ?_ }
-              · intro g hg; simp only [doneFunc, markDone_heap]
-                exact hi.fl g (hperm.mem_iff.mpr (List.mem_cons_of_mem _ hg))
-              · intro hd; simp only [doneFunc, markDone_down] at hd; exact hi.bro hd
-              · intro c' x
-                have hsl := hi.sl c' x
-                simp only [flightFacts_L] at hsl ⊢
-                simp only [doneFunc, markDone_heap, mail_markDone p.snd.q hi.sI.qinv c c' x]
-                rw [hsl]
-                by_cases hcc : c' = c
-                · subst hcc
-                  have hf1 : flightFactsL p.snd.q.heap rest c' = [] := by
-                    simp only [flightFactsL, flightRef_take_self _ _ _ _ htk hnd]
-                  simp only [if_true, hf1, List.mem_append, List.not_mem_nil, or_false]
-                  constructor
-                  · rintro (h | h | h | h) <;> simp [h]
-                  · rintro (h | (h | h) | h) <;> simp [h]
-                · have hf1 : flightFactsL p.snd.q.heap rest c' = flightFactsL p.snd.q.heap p.snd.parked c' := by
-                    simp only [flightFactsL, flightRef_take_other _ _ _ _ _ htk hcc]
-                  simp only [hcc, if_false, hf1]
-              · intro c' hc'
-                by_cases hcc : c' = c
-                · subst hcc; exact Or.inl hcl
-                · simp only [hcc, if_false] at hc'; exact hi.dr c' hc'
+              exact pinv_exit p hi c f rest htk hS (Or.inl hcl)
           · cases hs
         | stopExit c =>
           simp only [hs, Option.some.injEq] at h; subst h
@@ -490,33 +493,7 @@ theorem pinv_step (p p' : Pipe) (e : PEv) (hi : PInv p) (hok : e.ok) (h : stepP 
             | some pr =>
               obtain ⟨f, rest⟩ := pr
               simp only [htk, Option.some.injEq] at hs; subst hs
-              have hnd : (p.snd.parked.map (·.1)).Nodup := by
-                have := hi.sI.nodup
-                simp only [inflight, List.map_append] at this
-                exact (List.nodup_append.mp this).1
-              have hperm := (takeFlight_spec c _ f rest htk).2
-              refine { sI := hS, dI := hi.dI, fl := ?_, acc := hi.acc, bro := ?_, sl := ?_, dr := ?_ }
-              · intro g hg; simp only [doneFunc, markDone_heap]
-                exact hi.fl g (hperm.mem_iff.mpr (List.mem_cons_of_mem _ hg))
-              · intro hd; simp only [doneFunc, markDone_down] at hd; exact hi.bro hd
-              · intro c' x
-                have hsl := hi.sl c' x
-                simp only [flightFacts_L] at hsl ⊢
-                simp only [doneFunc, markDone_heap, mail_markDone p.snd.q hi.sI.qinv c c' x]
-                rw [hsl]
-                by_cases hcc : c' = c
-                · subst hcc
-                  have hf1 : flightFactsL p.snd.q.heap rest c' = [] := by
-                    simp only [flightFactsL, flightRef_take_self _ _ _ _ htk hnd]
-                  simp only [if_true, hf1, List.mem_append, List.not_mem_nil, or_false]
-                  constructor
-                  · rintro (h | h | h | h) <;> simp [h]
-                  · rintro (h | (h | h) | h) <;> simp [h]
-                · have hf1 : flightFactsL p.snd.q.heap rest c' = flightFactsL p.snd.q.heap p.snd.parked c' := by
-                    simp only [flightFactsL, flightRef_take_other _ _ _ _ _ htk hcc]
-                  simp only [hcc, if_false, hf1]
-              · intro c' _
-                exact Or.inr hst
+              exact pinv_exit p hi c f rest htk hS (Or.inr hst)
           · cases hs
 
 /-! ## The statements -/
@@ -529,9 +506,10 @@ def Pipe.init (o : DOpts) (h : Heap) (cap : Nat) (cs : List Conn) : Pipe :=
 theorem pinv_init (o : DOpts) (h : Heap) (hwf : h.wf = true) (cap : Nat) (cs : List Conn) :
     PInv (Pipe.init o h cap cs) :=
   { sI := invS_init h hwf cap, dI := invD_init o, fl := by intro f hf; simp [Pipe.init] at hf,
-    acc := by intro x; simp [Pipe.init, factsL], bro := by intro _ c _ x hx; simp [Pipe.init, factsL] at hx,
-    sl := by intro c x; simp [Pipe.init, mail, pendingOf, procOf, QState.init, facts_nil, flightFacts, takeFlight],
-    dr := by intro c hc; simp [Pipe.init] at hc }
+    acc := by intro x hx; simp [Pipe.init, factsL] at hx, deb := by intro x hx; simp [Pipe.init] at hx,
+    bro := by intro _ c _ x hx; simp [Pipe.init] at hx,
+    sl := by intro c x hx; simp [Pipe.init, logOf_nil] at hx,
+    dr := by intro c hc; simp [Pipe.init, logOf_nil] at hc }
 
 def PEvsOk : List PEv → Prop
   | [] => True
@@ -548,29 +526,22 @@ theorem pinv_run (p p' : Pipe) (es : List PEv) (hi : PInv p) (hok : PEvsOk es) (
       simp only [hs, Option.bind_some] at h
       exact ih p1 (pinv_step p p1 e hi hok.1 hs) hok.2 h
 
-/-- **pipeline_no_loss** (see the header): where every fact of every accepted notification is, for
-    every registered connection, in every reachable state of the running system. -/
+/-- **pipeline_no_loss** (see the header): where every fact of every notification accepted since the
+    last `mark` is, for every registered connection, in every reachable state of the running system.
+    The history `es` may contain `mark` anywhere. -/
 theorem pipeline_no_loss (o : DOpts) (h : Heap) (hwf : h.wf = true) (cap : Nat) (cs : List Conn)
     (es : List PEv) (hok : PEvsOk es) (p : Pipe) (hr : runP (Pipe.init o h cap cs) es = some p)
     (hd : p.snd.q.down = false) (c : Conn) (hc : c ∈ p.conns) (x : Fact) (hx : x ∈ factsL p.accepted) :
     x ∈ factsL p.chan ∨ x ∈ factsO p.db.req ∨ x ∈ factsL p.toStart ∨ x ∈ mail p.snd.q c ∨
-      x ∈ flightFacts p.snd c ∨ x ∈ p.seen c ∨
-      (x ∈ p.dropped c ∧ (p.snd.closed c = true ∨ p.snd.stopped = true)) := by
+      x ∈ flightFacts p.snd c ∨ x ∈ logOf p.seenLog c ∨
+      (x ∈ logOf p.dropLog c ∧ (p.snd.closed c = true ∨ p.snd.stopped = true)) := by
   have hi := pinv_run _ p es (pinv_init o h hwf cap cs) hok hr
-  rcases (hi.acc x).mp hx with h1 | h1
+  rcases hi.acc x hx with h1 | h1
   · exact Or.inl h1
-  · rcases (hi.dI.cover x).mp h1 with h2 | h2 | h2
-    · rcases hi.bro hd c hc x (Or.inl h2) with h3 | h3
+  · rcases hi.deb x h1 with h2 | h2
+    · rcases hi.bro hd c hc x h2 with h3 | h3
       · exact Or.inr (Or.inr (Or.inl h3))
-      · rcases (hi.sl c x).mp h3 with h4 | h4 | h4 | h4
-        · exact Or.inr (Or.inr (Or.inr (Or.inr (Or.inr (Or.inl h4)))))
-        · refine Or.inr (Or.inr (Or.inr (Or.inr (Or.inr (Or.inr ⟨h4, hi.dr c ?_⟩)))))
-          intro he; rw [he] at h4; cases h4
-        · exact Or.inr (Or.inr (Or.inr (Or.inl h4)))
-        · exact Or.inr (Or.inr (Or.inr (Or.inr (Or.inl h4))))
-    · rcases hi.bro hd c hc x (Or.inr h2) with h3 | h3
-      · exact Or.inr (Or.inr (Or.inl h3))
-      · rcases (hi.sl c x).mp h3 with h4 | h4 | h4 | h4
+      · rcases hi.sl c x h3 with h4 | h4 | h4 | h4
         · exact Or.inr (Or.inr (Or.inr (Or.inr (Or.inr (Or.inl h4)))))
         · refine Or.inr (Or.inr (Or.inr (Or.inr (Or.inr (Or.inr ⟨h4, hi.dr c ?_⟩)))))
           intro he; rw [he] at h4; cases h4
@@ -581,34 +552,31 @@ theorem pipeline_no_loss (o : DOpts) (h : Heap) (hwf : h.wf = true) (cap : Nat) 
 /-- **Delivered at rest**: when nothing is on its way any more (channel empty, nothing pending in the
     debounce loop, every entered `pushFn` has run `StartPush`, nothing waiting for `c` in the queue,
     no parked push event of `c`) and `c`'s stream is open and the server running, every fact of
-    every accepted notification has reached `Event.pushRequest` of `c`'s stream loop. -/
+    every notification accepted since the last `mark` has reached `Event.pushRequest` of `c`'s
+    stream loop since that `mark`. -/
 theorem pipeline_delivered_at_rest (o : DOpts) (h : Heap) (hwf : h.wf = true) (cap : Nat) (cs : List Conn)
     (es : List PEv) (hok : PEvsOk es) (p : Pipe) (hr : runP (Pipe.init o h cap cs) es = some p)
     (hd : p.snd.q.down = false) (c : Conn) (hc : c ∈ p.conns)
     (h1 : p.chan = []) (h2 : p.db.req = none) (h3 : p.toStart = []) (h4 : mail p.snd.q c = [])
     (h5 : flightFacts p.snd c = []) (h6 : p.snd.closed c = false) (h7 : p.snd.stopped = false)
-    (x : Fact) (hx : x ∈ factsL p.accepted) : x ∈ p.seen c := by
+    (x : Fact) (hx : x ∈ factsL p.accepted) : x ∈ logOf p.seenLog c := by
   have := pipeline_no_loss o h hwf cap cs es hok p hr hd c hc x hx
   rw [h1, h2, h3, h4, h5, h6, h7] at this
   simpa [factsL, factsO] using this
 
-/-- Nothing reaches a connection that was not accepted (no invention, no contamination from
-    elsewhere): what `c`'s stream loop has received is part of what was enqueued for `c`, which is part
-    of what `pushFn` was handed, which is part of what was accepted. -/
-theorem pipeline_nothing_invented (o : DOpts) (h : Heap) (hwf : h.wf = true) (cap : Nat) (cs : List Conn)
-    (es : List PEv) (hok : PEvsOk es) (p : Pipe) (hr : runP (Pipe.init o h cap cs) es = some p)
-    (c : Conn) (x : Fact) (hx : x ∈ p.seen c) : x ∈ p.enqd c :=
-  ((pinv_run _ p es (pinv_init o h hwf cap cs) hok hr).sl c x).mpr (Or.inl hx)
+/-! ## Non-vacuity -/
 
-/-! ## Non-vacuity: two connections, one update, one push round -/
-
+/-- Two connections; the same key is notified twice with a `mark` in between: both arrive. -/
 def exPipeEvs : List PEv :=
   [.configUpdate { configs := some ["VirtualService/ns1/a"], forced := true }, .recv, .deb (.tick 10), .deb .timer,
    .startPush, .snd .enter, .snd .acquire, .snd .dequeue, .snd .enter, .snd .acquire, .snd .dequeue,
-   .snd (.deliver 0), .snd (.deliver 1), .snd (.pushDone 1), .snd (.pushDone 0), .deb .pushReturn]
+   .snd (.deliver 0), .snd (.deliver 1), .snd (.pushDone 1), .snd (.pushDone 0), .deb .pushReturn, .deb .freeRecv,
+   .mark,
+   .configUpdate { configs := some ["VirtualService/ns1/a"] }, .recv, .deb (.tick 10), .deb .timer, .startPush,
+   .snd .enter, .snd .acquire, .snd .dequeue, .snd (.deliver 0), .snd (.pushDone 0)]
 
 example : ((runP (Pipe.init { after := 10, max := 100, eds := true } {} 2 [0, 1]) exPipeEvs).map
-    (fun p => (p.seen 0, p.seen 1, p.snd.tokens, p.db.sent))) =
-    some ([.cfg "VirtualService/ns1/a", .forced], [.cfg "VirtualService/ns1/a", .forced], 0, 1) := by decide +kernel
+    (fun p => (logOf p.seenLog 0, logOf p.seenLog 1, mail p.snd.q 1, p.snd.tokens))) =
+    some ([.cfg "VirtualService/ns1/a"], [], [.cfg "VirtualService/ns1/a"], 0) := by decide +kernel
 
 end IstioModel.C02
